@@ -16,7 +16,7 @@
 # limitations under the License.
 # -----------------------------------------------------------------------------
 from .tlv_type import BinaryStr, VarBinaryStr
-from .tlv_var import parse_and_check_tl
+from .tlv_var import parse_and_check_tl, parse_tl_num
 from .tlv_model import TlvModel, UintField, BytesField, ModelField, BoolField, DecodeError
 
 __all__ = ['LpTypeNumber', 'NackReason', 'parse_network_nack', 'make_network_nack', 'parse_lp_packet',
@@ -112,6 +112,18 @@ def parse_lp_packet_v2(wire: BinaryStr, with_tl: bool = True) -> LpPacketValue:
     """
     if with_tl:
         wire = parse_and_check_tl(wire, LpTypeNumber.LP_PACKET)
+    # Header fields come in increasing order of their type numbers, the Fragment last. The model parser skips
+    # a known field that is out of place like an unknown one, which would silently change what the packet says
+    # (a Nack header behind the Fragment, fragmentation headers behind the PIT token, ...)
+    offset = 0
+    last_type = -1
+    while offset < len(wire):
+        typ, size_typ = parse_tl_num(wire, offset)
+        length, size_len = parse_tl_num(wire, offset + size_typ)
+        offset += size_typ + size_len + length
+        if last_type == LpTypeNumber.FRAGMENT or (typ != LpTypeNumber.FRAGMENT and typ <= last_type):
+            raise DecodeError('NDNLP header fields are out of order')
+        last_type = typ
     markers = {}
     ret = LpPacketValue.parse(wire, markers, ignore_critical=True)
 
